@@ -72,6 +72,7 @@ pub fn dispatch(args: &[String]) -> i32 {
         "replay-router" => router::replay(&a),
         "replay-rate" => tower::replay_rate(&a),
         "rate-hint-probe" => tower::rate_hint_probe(&a),
+        "rate-stale-probe" => tower::rate_stale_probe(&a),
         "limstress" => limstress::main(&a),
         "oddcfg" => oddcfg::main(&a),
         "replay-towermisc" => towermisc::replay(&a),
